@@ -8,12 +8,14 @@ import (
 	"context"
 	"encoding/base64"
 	"fmt"
+	"math/bits"
 	"time"
 
 	"github.com/emitter-io/emitter/internal/broker"
 	"github.com/emitter-io/emitter/internal/config"
 	"github.com/emitter-io/emitter/internal/provider/logging"
 	"github.com/emitter-io/emitter/internal/security"
+	"github.com/emitter-io/emitter/internal/security/hash"
 	"github.com/emitter-io/emitter/internal/security/license"
 	"github.com/emitter-io/emitter/internal/zzverif/vlib"
 )
@@ -75,6 +77,87 @@ func unsigned() []license.License {
 	b := license.NewV2()
 	b.Sign = 0
 	return []license.License{a, b}
+}
+
+// ---- a different key text with the same 32-bit murmur hash (hash.Of) ------------------------------------
+
+func inv32(a uint32) uint32 { // inverse of an odd number modulo 2^32
+	x := a
+	for i := 0; i < 5; i++ {
+		x *= 2 - a*x
+	}
+	return x
+}
+
+func scramble(k uint32) uint32 {
+	k *= 0xcc9e2d51
+	k = bits.RotateLeft32(k, 15)
+	return k * 0x1b873593
+}
+
+func unscramble(k uint32) uint32 {
+	k *= inv32(0x1b873593)
+	k = bits.RotateLeft32(k, -15)
+	return k * inv32(0xcc9e2d51)
+}
+
+func le32(b []byte) uint32 {
+	return uint32(b[0]) | uint32(b[1])<<8 | uint32(b[2])<<16 | uint32(b[3])<<24
+}
+
+func bswap(h uint32) uint32 {
+	return (h << 24) | ((h >> 8) << 16 & 0xFF0000) | ((h >> 16) << 8 & 0xFF00) | (h >> 24)
+}
+
+// unfinal undoes the finalisation of hash.Of for a 32-byte input: the state after the last block
+func unfinal(out uint32) uint32 {
+	h := bswap(out)
+	h ^= h >> 16
+	h *= inv32(0xc2b2ae35)
+	h ^= h >> 13
+	h ^= h >> 26
+	h *= inv32(0x85ebca6b)
+	h ^= h >> 16
+	return h ^ 32
+}
+
+// collide returns a 32-character string over the key alphabet that differs from s in its last eight
+// characters and whose hash.Of value is that of s xor delta.
+func collide(r interface{ Intn(int) int }, s string, delta uint32) string {
+	b := []byte(s)
+	h := uint32(37)
+	for i := 0; i < 24; i += 4 {
+		h ^= scramble(le32(b[i:]))
+		h = bits.RotateLeft32(h, 13)
+		h = h*5 + 0xe6546b64
+	}
+	h6 := bits.RotateLeft32(h^scramble(le32(b[24:])), 13)*5 + 0xe6546b64
+	_ = h6
+	// the state wanted after the last block, and from it what (state before) xor (scrambled last block) must be
+	want := bits.RotateLeft32((unfinal(hash.OfString(s)^delta)-0xe6546b64)*inv32(5), -13)
+	isKeyChar := func(c byte) bool {
+		return (c >= '0' && c <= '9') || (c >= 'A' && c <= 'Z') || (c >= 'a' && c <= 'z') || c == '-' || c == '_'
+	}
+	for try := 0; try < 200000; try++ {
+		var blk [4]byte
+		for k := range blk {
+			blk[k] = alphabet[r.Intn(64)]
+		}
+		if string(blk[:]) == s[24:28] {
+			continue
+		}
+		h6b := bits.RotateLeft32(h^scramble(le32(blk[:])), 13)*5 + 0xe6546b64
+		last := unscramble(want ^ h6b)
+		c := []byte{byte(last), byte(last >> 8), byte(last >> 16), byte(last >> 24)}
+		if isKeyChar(c[0]) && isKeyChar(c[1]) && isKeyChar(c[2]) && isKeyChar(c[3]) {
+			out := s[:24] + string(blk[:]) + string(c)
+			if hash.OfString(out) != hash.OfString(s)^delta {
+				panic("collide: the hashes differ")
+			}
+			return out
+		}
+	}
+	return s
 }
 
 func verOf(l license.License) int {
@@ -171,7 +254,13 @@ func main() {
 				class = "random-mask"
 			}
 			modStr := base64.RawURLEncoding.EncodeToString(mod)
-			if r.Intn(8) == 0 { // character substitution directly in the string
+			if r.Intn(10) == 0 { // another spelling with the same 32-bit hash as the original (the original is presented first)
+				// ... or with a hash that differs by the difference of two permission bits
+				delta := uint32(vlib.Pick(r, 0, 0, 2^4, 2^16, 4^8, 2^32, 4^16, 2^64))
+				modStr = collide(r, enc, delta)
+				mod, _ = base64.RawURLEncoding.DecodeString(modStr)
+				class = "chosen-murmur-hash"
+			} else if r.Intn(8) == 0 { // character substitution directly in the string
 				b := []byte(enc)
 				b[r.Intn(32)] = alphabet[r.Intn(64)]
 				modStr = string(b)
